@@ -330,9 +330,16 @@ def _check(area, pid, tier, seed, t0, args):
     # 4: correspondence + predicate net
     cases = []
     tables_before = module_tables()
+    # thorough tier: the generator runs THOROUGH_ROUNDS times (an attribute of the harness, default 1), each round on a random
+    # stream of its own - the sampled parts differ from round to round, the exhaustive parts are repeated
+    rounds = max(1, int(getattr(area, 'THOROUGH_ROUNDS', 1))) if tier == 'thorough' else 1
+    if rounds > 1:
+        res.notes.append('generator run %d times, each round on a random stream of its own' % rounds)
     try:
-        for c in area.generate(rng, tier):
-            cases.append(c)
+        for rnd in range(rounds):
+            rng_r = rng if rnd == 0 else random.Random('%s/%s/%d/round%d' % (pid, tier, seed, rnd))
+            for c in area.generate(rng_r, tier):
+                cases.append(c)
     except subprocess.TimeoutExpired:
         raise
     except (Exception, asyncio.CancelledError) as e:     # noqa
